@@ -67,7 +67,15 @@ TEXT = {
            "multiset observation, the dispatch of the main walk loop and of "
            "the merge-point handler (loop-carried state described by its "
            "value on loop entry), the break filter acts only on events of "
-           "the loop (defect D9 found and repaired). Decides the "
+           "the loop (defect D9 found and repaired), the neighbourhood / "
+           "reachability helpers and the definition of the loop components "
+           "(which set from which, under which case split), the visiting "
+           "order of the components, next-path / merge-point handlers "
+           "(which value is returned under which condition), no crossed "
+           "positional hand-off, faithful records (attributes assigned "
+           "before they are read along the constructor chain, parameters "
+           "stored under their own names, property guards), per-direction "
+           "containers of model nodes. Decides the "
            "plumbing, not the heuristics' language inclusion.",
     "C04": "Decides the four structural premises that make chunked learning "
            "equal one-shot learning at model level: stale-flag typestate on "
@@ -94,7 +102,10 @@ TEXT = {
            "evidence, pop / partial merge keep per-path lists and index maps "
            "in step (defect D7 found and repaired), node creation and the "
            "activity line, the dispatch of the main walk loop, rendering "
-           "never writes to the diagram it reads. Block closure "
+           "never writes to the diagram it reads, a failing placeholder sink "
+           "aborts the conversion (no swallowing handler), the dummy-break "
+           "push-down beneath nested XOR starts, branch separators and the "
+           "operator writer. Block closure "
            "as a function of graph shape is not decided.",
     "C07": "Decides the recursion scheme of loop extraction (every cyclic "
            "SCC replaced, body decomposed recursively on a private copy, "
@@ -108,7 +119,10 @@ TEXT = {
            "outside evidence of start, end and break events, break events "
            "connected to the exit are replaced by dummy breaks and only "
            "events of the loop count as such (defect D9 found and "
-           "repaired), break handlers run before pruning). "
+           "repaired), break handlers run before pruning, components visited "
+           "in networkx's order, helper semantics, the definition table of "
+           "the component classification - its correctness for every graph "
+           "is NOT decided, see defect D10). "
            "Classification "
            "of loop components is value-dependent and not decided.",
     "C08": "Decides the structural clauses of the sequencing rules: overlap "
